@@ -1,7 +1,7 @@
 (* Glue for generated case files: numerals and byte strings as extracted Coq datatypes,
    and the report printer.  Numbers arrive as hexadecimal text and are converted bit by
    bit; nothing here depends on OCaml's int width. *)
-module M = Biscuit_model
+module M = MODEL_MODULE
 
 let hexdigit c =
   match c with
